@@ -54,5 +54,10 @@ def namesAsModelled : Bool :=
   && Gen.C19.topologyGlobs == ["/sys/devices/system/cpu/cpu[0-9]*/topology/core_cpus_list",
                                "/sys/devices/system/cpu/cpu[0-9]*/topology/thread_siblings_list"]
   && Gen.C19.coresMapping == ["physical id", "cpu cores", "physical id", "cpu cores"]
+  -- thermal zone at file-name level (Model/C19Dir.lean): glob `base + '/trip_point*'` (`tripFiles`),
+  -- `'_'.join(basename(p).split('_')[0:3])` (`tripName`), `trip_point + '_type'` / `+ '_temp'` (`tripOfName`),
+  -- `== 'critical'` → critical, `== 'high'` → high (`tripAssign`)
+  && Gen.C19.tripNameRule == ["/trip_point*", "_", "0", "3", "_type", "_temp"]
+  && Gen.C19.tripKinds == ["critical", "critical", "high", "high"]
 
 end Psutil.C19
